@@ -19,7 +19,7 @@ func init() {
 		ID:        "C17",
 		Technique: "reference-model monitor (exact big.Rat subdivision cell with boundary band): contiguity, clamping, coverage in both directions",
 		Rule: "per case: a height range (symmetric/asymmetric, dyadic/non-dyadic, spans 1e-3 .. 2^26 m), an output zoom 0..35 (run length capped at 2000 cells) and a voxel placed inside, straddling either end of, or entirely outside the range; " +
-			"forward (extended and spatial form): vertical IDs of all pairs form exactly the integer run [cell(bottom), cell(top)] inside [0,2^zoom), at a cell boundary within 1e-12 of the span either neighbour is accepted; " +
+			"forward (extended and spatial form): vertical IDs of all pairs form exactly the integer run [cell(bottom), cell(top)] inside [0,2^zoom), at a cell boundary within 1e-12 of the span either neighbour is accepted (no tolerance when the span is a power of two and all borders are exactly representable); " +
 			"backward: the f-set is a contiguous run containing [floor(lo/res), ceil(hi/res)-1] and contained in [floor(lo/res), floor(hi/res)] for the cell's interval [lo,hi]; max < min is an error in both directions. " +
 			"Non-trivial = always; distinct by (range, zooms, voxel/cell).",
 		Assume: []string{"reference cell = clamp(floor((a-min)*2^z/(max-min)), 0, 2^z-1) in exact rationals; band 1e-12*(max-min) for the library's repeated float halving"},
@@ -36,6 +36,15 @@ func cellOf(a, min, max float64, z int64) (lo, hi int64) {
 	pos.Mul(pos, new(big.Rat).SetInt(new(big.Int).Lsh(big.NewInt(1), uint(z))))
 	pos.Quo(pos, span)
 	band := new(big.Rat).SetFloat64(math.Ldexp(1e-12, int(z)))
+	// exact regime: a power-of-two span whose subdivision borders (multiples of span/2^z, offset by min) are all exactly
+	// representable - every halving and comparison of the library is then exact, so the cell is decided without a band
+	if fr, k := math.Frexp(max - min); fr == 0.5 && !math.IsInf(max-min, 0) {
+		unit := math.Ldexp(1, k-1-int(z)) // span / 2^z
+		big1 := math.Max(math.Abs(min), math.Abs(max))
+		if q := min / unit; q == math.Trunc(q) && big1/unit < 1<<52 && max-min == math.Ldexp(1, k-1) && min+(max-min) == max {
+			band = new(big.Rat)
+		}
+	}
 	top := pow2(z) - 1
 	cl := func(x *big.Int) int64 {
 		if x.Sign() < 0 {
@@ -88,9 +97,14 @@ func runC17(c *core.Case) {
 	var obs []string
 	if r.P(0.04) { // max < min is an error in both directions
 		id := genID(r, 1, 31, 0, 35)
-		res, e1 := transform.ConvertExtendedSpatialIDsToQuadkeysAndVerticalIDs([]string{id.Ext()}, id.H, 7, min, max)
-		back, e2 := transform.ConvertQuadkeysAndVerticalIDsToExtendedSpatialIDs([]*object.QuadkeyAndVerticalID{object.NewQuadkeyAndVerticalID(6, 2914, 7, 3, min, max)}, 6, 26)
+		zf, zb, zo := genZoom(r), genZoom(r), genZoom(r) // every output / bit zoom incl. 0 and 35
+		res, e1 := transform.ConvertExtendedSpatialIDsToQuadkeysAndVerticalIDs([]string{id.Ext()}, id.H, zf, min, max)
+		back, e2 := transform.ConvertQuadkeysAndVerticalIDsToExtendedSpatialIDs([]*object.QuadkeyAndVerticalID{object.NewQuadkeyAndVerticalID(6, 2914, zb, 0, min, max)}, 6, zo)
+		if e1 == nil && id.H == id.V { // spatial entry point of the same conversion
+			_, e1 = transform.ConvertSpatialIDsToQuadkeysAndVerticalIDs([]string{id.Spatial()}, id.H, zf, min, max)
+		}
 		c.Calls(2)
+		c.KI(zf, zb, zo)
 		c.Tag("max<min")
 		c.NonTrivial()
 		c.KS(id.Ext())
